@@ -315,6 +315,15 @@ func vacuityGuards(units []*UnitResult, jobs []*VCJob, dir string) []string {
 			if seen[key] {
 				continue
 			}
+			dead := false
+			for _, a := range j.Obl.Assume { // paths that end in a call that does not return (os.Exit)
+				if a == "false" {
+					dead = true
+				}
+			}
+			if dead {
+				continue
+			}
 			seen[key] = true
 			var b strings.Builder
 			b.WriteString(u.Header)
